@@ -141,8 +141,11 @@ func genC08(t *rapid.T) C08Case {
 	return c
 }
 
+// unsolicited audit records come in every record type the kernel or user space emits (sequence number 0)
+var eventTypes = []uint16{1300, 1302, 1305, 1006, 1005, 1100, 1112, 1123, 1307, 1309, 1320, 1326, 1327, 1329, 1400, 1701, 2100, 2404, 1199, 1299, 2999}
+
 func event(i int) []byte {
-	return simk.Msg(uint16(1300+i%30), 0, 0, 0, []byte(fmt.Sprintf("audit(1700000000.%03d:%d): unsolicited=%d", i%1000, 100+i, i)))
+	return simk.Msg(eventTypes[i%len(eventTypes)], 0, 0, 0, []byte(fmt.Sprintf("audit(1700000000.%03d:%d): unsolicited=%d", i%1000, 100+i, i)))
 }
 
 // scripted installs the kernel behaviour of one operation.
